@@ -88,7 +88,7 @@ def suite(name):
     wt = f"/tmp/mut/{name}"
     t0 = time.time()
     rc, o = sh([PY, "-m", "pytest", "-q", "-p", "no:cacheprovider", "-n", "8", "--timeout=900"], cwd=wt, env=dict(os.environ, PYTHONPATH=wt), timeout=7200)
-    tail = [l for l in o.splitlines() if "passed" in l or "failed" in l][-1:]
+    tail = [l for l in o.splitlines() if "passed" in l or "failed" in l or l.startswith("FAILED") or l.startswith("ERROR")][-8:]
     meta = load_meta(name)
     meta.setdefault("confirmed", {})["test_suite_with_change"] = {"exit": rc, "tail": tail, "wall_s": round(time.time() - t0)}
     save_meta(name, meta)
